@@ -13,6 +13,7 @@ import (
 	"strconv"
 	"strings"
 	"sync"
+	"sync/atomic"
 	"time"
 
 	wire "github.com/jeroenrinzema/psql-wire"
@@ -133,6 +134,38 @@ type memListener struct {
 func (l *memListener) Accept() (net.Conn, error) { <-l.closed; return nil, net.ErrClosed }
 func (l *memListener) Close() error              { l.once.Do(func() { close(l.closed) }); return nil }
 func (l *memListener) Addr() net.Addr            { return memAddr("listener") }
+
+// scriptedListener hands out one connection, then (once told to) fails with an error that is not net.ErrClosed
+type scriptedListener struct {
+	first  net.Conn
+	fail   chan struct{}
+	closed chan struct{}
+	once   sync.Once
+	mu     sync.Mutex
+	n      int
+}
+
+func (l *scriptedListener) Accept() (net.Conn, error) {
+	l.mu.Lock()
+	k := l.n
+	l.n++
+	l.mu.Unlock()
+	switch k {
+	case 0:
+		return l.first, nil
+	case 1:
+		select {
+		case <-l.fail:
+			return nil, errors.New("accept tcp 127.0.0.1:5432: accept4: too many open files")
+		case <-l.closed:
+			return nil, net.ErrClosed
+		}
+	}
+	<-l.closed
+	return nil, net.ErrClosed
+}
+func (l *scriptedListener) Close() error   { l.once.Do(func() { close(l.closed) }); return nil }
+func (l *scriptedListener) Addr() net.Addr { return memAddr("listener") }
 
 type c16sched struct {
 	id      string
@@ -452,7 +485,9 @@ func runC16extras(c *runCfg) {
 		c.stat("class_" + class)
 		id++
 	}
+	var parsed atomic.Int64
 	parse := func(ctx context.Context, query string) (wire.PreparedStatements, error) {
+		parsed.Add(1)
 		return wire.Prepared(wire.NewStatement(func(ctx context.Context, w wire.DataWriter, p []wire.Parameter) error {
 			if query == "boom" {
 				panic("statement function panics")
@@ -506,6 +541,54 @@ func runC16extras(c *runCfg) {
 			}
 			emit(fmt.Sprintf("listeners_%d", k), nclose, returned, allNil, hang, 0)
 		}
+	}
+	// a fault before Close: the accept loop ends with an error of its listener (file descriptors exhausted, ...) while a
+	// connection it had accepted is idle. Close, called afterwards, returns — and from then on no parser runs on that
+	// connection either
+	for round := 0; round < 2; round++ {
+		srv, err := wire.NewServer(parse, wire.Logger(quiet), wire.MessageBufferSize(256))
+		if err != nil {
+			panic(err)
+		}
+		conn := newMemConn()
+		lst := &scriptedListener{first: conn, fail: make(chan struct{}), closed: make(chan struct{})}
+		serveDone := make(chan error, 1)
+		go func() { serveDone <- srv.Serve(lst) }()
+		conn.push(stdStartup)
+		conn.waitIdle(extraWait)
+		if round == 1 {
+			conn.push(mQuery([]byte("select 1")))
+			conn.waitIdle(extraWait)
+		}
+		close(lst.fail)
+		returned, hang, serveAsExpected := 0, false, false
+		select {
+		case err := <-serveDone:
+			serveAsExpected = err != nil // Serve hands the listener's error to its caller
+		case <-time.After(extraWait):
+			hang = true
+		}
+		closed := make(chan struct{}, 1)
+		go func() { srv.Close(); closed <- struct{}{} }()
+		select {
+		case <-closed:
+			returned = 1
+		case <-time.After(extraWait):
+			hang = true
+		}
+		before := parsed.Load()
+		late := false
+		if returned == 1 {
+			conn.push(mQuery([]byte("select 1")))
+			conn.waitIdle(extraWait)
+			late = parsed.Load() != before
+		}
+		conn.setEOF()
+		conn.Close()
+		lst.Close()
+		c.out.line(sx("c16x", fmt.Sprintf("x%d", id), "accept_error_then_close", sx("nc", 1), sx("final", sx("panic", 0), sx("returned", returned), sx("servenil", serveAsExpected), sx("latestart", late), sx("runningatreturn", false), sx("hang", hang))))
+		c.stat("class_accept_error_then_close")
+		id++
 	}
 	big := msg('Q', make([]byte, 1000))
 	within := mQuery(bytes.Repeat([]byte("x"), 100))
